@@ -1,20 +1,17 @@
 /-
-  Spec.ProjectDomain — the domain D of `incl_exact` / `excl_exact` / `find_eq_agg` (C12) as a
-  decidable predicate, written as the list of *reasons* a (projection, document) pair lies
-  outside it.  `inD` is "no reason".  The driver evaluates `reasons` on every generated case.
+  Spec.ProjectDomain — the domain D of `incl_exact` / `excl_exact` / `agg_exact` / `find_eq_agg`
+  (C12) as a decidable predicate, written as the list of *reasons* a (projection, document) pair
+  lies outside it.  `inD` is "no reason".  The driver evaluates `reasons` on every generated case.
 
-  Known findings (the unchanged code departs from the rule there):
-    mixedarray   a dotted path descends into an array that has a scalar element
-                 (find path raises AttributeError)
-    exclscalar   an exclusion's dotted path runs into a scalar / null (find path drops the scalar)
-    aggdroparr   aggregate-path exclusion descending into an array drops its non-document elements
-    slicelimit   `$slice: [k, n]` with `n ≤ 0` is answered instead of refused
-    sliceskip    `$slice: [k, n]` with `k < -len` yields the wrong part
+  No known finding is left among the reasons: the classes `mixedarray`, `exclscalar`,
+  `aggdroparr`, `slicelimit`, `sliceskip` were defects of the library, repaired since (see
+  known_findings.json), and the classes went away with them — and with them every reason that
+  depended on the document below its top-level keys (arrays of anything, nested arrays and
+  scalars on the way of a dotted path are all inside D now).
   Scope limits (nothing claimed): ops (operator fields: judged by the per-field oracle),
     oddvalue / oddid (values other than 0/1/true/false), mixed, collision, badkey, positional,
-    idpath (`_id.x`), dupkeys (not a dict), nestedarray (array directly inside a descended
-    array), malformed; for `$project` also idinexclusion (`_id: 1` next to excluded fields: the
-    stage refuses it).
+    idpath (`_id.x`), dupkeys (not a dict), malformed; for `$project` also idinexclusion
+    (`_id: 1` next to excluded fields: the stage refuses it).
 -/
 import Spec.Project
 
@@ -49,25 +46,6 @@ def specReasons (fields : Fields) : List String :=
   (if paths.any (fun p => p.any (fun c => c.toList.head? == some '$')) then ["positional"] else []) ++
   (if paths.any (fun p => p.head? == some "_id") then ["idpath"] else [])
 
-mutual
-  /-- reasons met while descending value `v` with the non-empty remainders `ps` -/
-  def descVal : Val → List Path → Bool → List String
-    | .doc fs, ps, incl => descFields fs ps incl
-    | .arr xs, ps, incl => descList xs ps incl
-    | _, _, incl => if incl then [] else ["exclscalar"]
-  def descFields : Fields → List Path → Bool → List String
-    | [], _, _ => []
-    | (k, v) :: rest, ps, incl =>
-      let ts := tailsOf k ps
-      (if ts.isEmpty || ts.contains [] then [] else descVal v ts incl) ++ descFields rest ps incl
-  /-- the elements of a descended array -/
-  def descList : List Val → List Path → Bool → List String
-    | [], _, _ => []
-    | .doc fs :: xs, ps, incl => descFields fs ps incl ++ descList xs ps incl
-    | .arr _ :: xs, ps, incl => "nestedarray" :: descList xs ps incl
-    | _ :: xs, ps, incl => "mixedarray" :: descList xs ps incl
-end
-
 /-- why `(p, d)` is outside D (empty = inside) -/
 def reasons (p d : Val) : List String :=
   match d with
@@ -85,30 +63,12 @@ def reasons (p d : Val) : List String :=
          if !rs.isEmpty then rs
          else match normDict fields with
            | none => ["malformed"]
-           | some n => descFields fs n.paths n.incl)
+           | some _ => [])
   | _ => ["malformed"]
 
 def inD (p d : Val) : Bool := (reasons p d).isEmpty
 
 /-! ### the aggregate path (`$project` stage) -/
-
-mutual
-  def aggDescVal : Val → List Path → Bool → List String
-    | .doc fs, ps, incl => aggDescFields fs ps incl
-    | .arr xs, ps, incl => aggDescList xs ps incl
-    | _, _, _ => []
-  def aggDescFields : Fields → List Path → Bool → List String
-    | [], _, _ => []
-    | (k, v) :: rest, ps, incl =>
-      let ts := tailsOf k ps
-      (if ts.isEmpty || ts.contains [] then [] else aggDescVal v ts incl) ++
-        aggDescFields rest ps incl
-  def aggDescList : List Val → List Path → Bool → List String
-    | [], _, _ => []
-    | .doc fs :: xs, ps, incl => aggDescFields fs ps incl ++ aggDescList xs ps incl
-    | .arr _ :: xs, ps, incl => "nestedarray" :: aggDescList xs ps incl
-    | _ :: xs, ps, incl => (if incl then [] else ["aggdroparr"]) ++ aggDescList xs ps incl
-end
 
 /-- why `($project p, d)` is outside the domain of the aggregate-path rule -/
 def aggReasons (p d : Val) : List String :=
@@ -121,21 +81,20 @@ def aggReasons (p d : Val) : List String :=
      else match normDict fields with
        | none => ["malformed"]
        | some n =>
-         (if !n.incl && (dget "_id" fields).bind flagOf == some true then ["idinexclusion"] else [])
-         ++ aggDescFields fs n.paths n.incl)
+         (if !n.incl && (dget "_id" fields).bind flagOf == some true then ["idinexclusion"]
+          else []))
   | _, _ => ["malformed"]
 
 def aggInD (p d : Val) : Bool := (aggReasons p d).isEmpty
 
 /-! ### `$slice` -/
 
-/-- why `($slice operand, array)` is outside the domain of `slice_spec` -/
-def sliceReasons (sv : Val) (xs : List Val) : List String :=
+/-- why a `$slice` operand is outside the domain of `slice_spec`: only its shape counts (an int,
+    or a pair of ints) -/
+def sliceReasons (sv : Val) : List String :=
   match sv with
   | .int _ => []
-  | .arr [.int skip, .int limit] =>
-    (if limit ≤ 0 then ["slicelimit"] else []) ++
-    (if skip + (xs.length : Int) < 0 then ["sliceskip"] else [])
+  | .arr [.int _, .int _] => []
   | _ => ["malformed"]
 
 end MongoModel.Spec.Proj
